@@ -16,6 +16,7 @@ TECHNIQUE = {
  "C08": "exhaustiveness tables + dominance rule on the condition-evaluation loop + provenance",
  "C09": "exhaustiveness of conversion tables + dominance of type guards",
  "C10": "ownership (provenance) analysis of in-place algorithm arguments over SSA and static callers",
+ "C11": "field-provenance rules on the accumulator (which value may be stored into old/new, under which dominating condition), store/delete pairing on the emptiness test, ownership analysis of in-place merge arguments (SSA)",
  "C12": "encoder/decoder slot-table agreement by taint propagation over the typed AST",
  "C13": "SSA value-provenance (freshness) analysis with interprocedural summaries",
  "C14": "event/mutation pairing by SSA dominance + channel producer/consumer census",
@@ -78,7 +79,7 @@ def main():
         ],
         "checks": checks,
         "not_applicable": na,
-        "notes": "All claims are at level 'other': each decides a named structural clause of its property from the source of /repo's working tree on every run; nothing from /repo is executed. Known/fixed findings: /verif/known_findings.json (all entries are 'fixed', i.e. suppress nothing). Positive controls (seeded in-memory variants of the current tree) are re-run by every check and recorded in the evidence. Seeded property-breaking changes used to test the checks: /verif/seeded/.",
+        "notes": "All claims are at level 'other': each decides a named structural clause of its property from the source of /repo's working tree on every run; nothing from /repo is executed. Known/fixed findings: /verif/known_findings.json (all entries are 'fixed', i.e. suppress nothing). Positive controls (seeded in-memory variants of the current tree) are re-run by every check and recorded in the evidence. Seeded property-breaking changes used to test the checks: /verif/seeded/ (RESULTS.md); property-preserving patches that must stay silent: /verif/benign/.",
     }
     json.dump(m, open(os.path.join(HERE, "MANIFEST.json"), "w"), indent=1)
     print("wrote MANIFEST.json:", len(checks), "checks,", len(na), "not claimed")
